@@ -265,6 +265,9 @@ func cmdReplay(args []string) int {
 	vs := violationsFor(rf.Property, r, bin, 2)
 	sort.Slice(vs, func(i, j int) bool { return vs[i].Rule < vs[j].Rule })
 	fmt.Printf("replay of %s: seed=%d family=%s decisions diverged=%d steps=%d\n", args[0], rf.Seed, rf.Family, r.Diverged, r.Steps)
+	for _, l := range r.Sample {
+		fmt.Println("scenario:", l)
+	}
 	if sp.Trace {
 		for _, l := range r.Trace {
 			fmt.Println(l)
